@@ -36,7 +36,11 @@ Inductive obs := OHist (h : hobs) | OSync (s : sobs).
 Definition dres_eqb (a b : dres) : bool :=
   match a, b with RVal x, RVal y | RErr x, RErr y => Nat.eqb x y | _, _ => false end.
 Definition dstate_eqb (a b : dstate) : bool :=
-  match a, b with SUnfired, SUnfired => true | SVal x, SVal y | SErr x, SErr y => Nat.eqb x y | _, _ => false end.
+  match a, b with
+  | SUnfired, SUnfired | SWaiting, SWaiting => true
+  | SVal x, SVal y | SErr x, SErr y => Nat.eqb x y
+  | _, _ => false
+  end.
 Definition xexc_eqb (a b : xexc) : bool :=
   match a, b with XUser x, XUser y => Nat.eqb x y | XNotFired, XNotFired | XOther, XOther => true | _, _ => false end.
 Definition opout_eqb (a b : opout) : bool :=
@@ -55,10 +59,11 @@ Definition uret_eqb (a b : uret) : bool :=
 Definition log_eqb : log -> log -> bool := list_eqb (pair_eqb Nat.eqb dres_eqb).
 
 (* ---- the statement ---- *)
-(* which matcher matches which state *)
+(* which matcher matches which state; a Deferred that was fired but whose chain is paused or waits for
+   another Deferred has no result (yet) *)
 Definition expect_match (m : matcher) (s : dstate) : bool :=
   match m, s with
-  | MNoResult, SUnfired => true
+  | MNoResult, SUnfired | MNoResult, SWaiting => true
   | MSucceeded im, SVal v => inner_match im v
   | MFailed im, SErr e => inner_match im e
   | _, _ => false
@@ -76,7 +81,7 @@ Definition after_okb (m : matcher) (before after : dstate) : bool :=
   end.
 
 Definition expect_extract (s : dstate) : res nat xexc :=
-  match s with SVal v => Ok v | SErr e => Raised (XUser e) | SUnfired => Raised XNotFired end.
+  match s with SVal v => Ok v | SErr e => Raised (XUser e) | SUnfired | SWaiting => Raised XNotFired end.
 
 Definition op_okb (o : op) (x : oobs) : bool :=
   match o with
@@ -104,8 +109,8 @@ Definition hist_okb (ops : list op) (h : hobs) : bool :=
   && dstate_eqb (final_state (h_ops h)) (h_efinal h)
   && Bool.eqb (final_called (h_ops h)) (h_ecalled h)
   && Bool.eqb (h_unhandled h) (h_eunhandled h)
-  (* nothing is logged as unhandled unless the Deferred still holds a failure *)
-  && (is_err (final_state (h_ops h)) || negb (h_unhandled h)).
+  (* nothing is logged as unhandled unless the Deferred still holds a failure (possibly behind a pause) *)
+  && (is_err (final_state (h_ops h)) || dstate_eqb (final_state (h_ops h)) SWaiting || negb (h_unhandled h)).
 
 Definition sync_okb (s : nat + nat) (o : sobs) : bool :=
   uret_eqb (s_direct o) (direct_run_user s)
@@ -141,7 +146,7 @@ Definition Hist_spec (ops : list op) (h : hobs) : Prop :=
   /\ final_state (h_ops h) = h_efinal h
   /\ final_called (h_ops h) = h_ecalled h
   /\ h_unhandled h = h_eunhandled h
-  /\ (h_unhandled h = true -> exists e, final_state (h_ops h) = SErr e).
+  /\ (h_unhandled h = true -> final_state (h_ops h) = SWaiting \/ exists e, final_state (h_ops h) = SErr e).
 
 Definition Sync_spec (s : nat + nat) (o : sobs) : Prop :=
   s_direct o = direct_run_user s /\ s_fired o = s_direct o /\ s_unfired o = URaised XNotFired
